@@ -498,7 +498,7 @@ pub fn gen(seed: u64, thorough: bool) -> Vec<String> {
     ];
     let threads_all = [1usize, 2, 3, 4, 5, 6, 7, 8, 9, 10, 11, 12, 13, 14, 15, 16];
     let orders = ["nat", "rev", "rnd", "free"];
-    let n_enc = if thorough { 40_000 } else { 9_000 };
+    let n_enc = if thorough { 120_000 } else { 9_000 };
     let mut k = 0u64;
     while (out.len() as u64) < u64::MAX && k < n_enc {
         k += 1;
